@@ -46,13 +46,23 @@ func vCrashScenario(mode int, power bool) {
 	rt.Opt("clock", 1)
 	rt.Opt("crash", 1)
 	if power {
-		rt.Opt("powerloss", 1)
+		// quick: per file a suffix of the unsynced writes is lost (ordered mode, case split);
+		// thorough: every subset of the unsynced writes (one Boolean per write, decided symbolically)
+		if rt.Tier() == 1 {
+			rt.Opt("powerloss", 1)
+		} else {
+			rt.Opt("powerloss", 2)
+		}
 	}
 	rt.Stub("github.com/alpacahq/marketstore/v4/executor.GetTimeFromTicks", vStubGetTimeFromTicksMemo)
 	rt.Stub("github.com/alpacahq/marketstore/v4/utils/io.GetIntervalTicks32Bit", vStubIntervalTicks)
 	root := rt.TempDir()
 	defer rt.Cleanup()
-	variable := rt.Fix(rt.Int("variable", 0, 1)) == 1
+	variable := false
+	if !power || rt.Tier() == 1 {
+		// (power loss makes the index entries of variable-length intervals symbolic; quick tier: fixed only)
+		variable = rt.Fix(rt.Int("variable", 0, 1)) == 1
+	}
 	key := "AAPL/1D/OHLCV"
 	if variable {
 		key = "AAPL/1D/TICK"
@@ -62,7 +72,22 @@ func vCrashScenario(mode int, power bool) {
 	var ws [3]vWrite
 	names := [3][3]string{{"slotA", "secA", "vA"}, {"slotB", "secB", "vB"}, {"slotC", "secC", "vC"}}
 	for i := range ws {
-		ws[i].slot = base + 86400*rt.Fix(rt.Int(names[i][0], 0, 1))
+		nslots := int64(1)
+		if i == 2 {
+			nslots = 2 // write C may also go to a year whose file does not exist yet (created, never fsynced)
+		}
+		k := int64(0)
+		if power && rt.Tier() == 0 {
+			if i == 2 && rt.Fix(rt.Int(names[i][0], 0, 1)) == 1 {
+				k = 2 // quick power-loss tier: A, B in one interval; C there or in the new year
+			}
+		} else {
+			k = rt.Fix(rt.Int(names[i][0], 0, nslots))
+		}
+		ws[i].slot = base + 86400*k
+		if k == 2 {
+			ws[i].slot = time.Date(2021, 3, 2, 0, 0, 0, 0, time.UTC).Unix()
+		}
 		ws[i].sec = rt.Int(names[i][1], 0, 86399)
 		ws[i].v = rt.Int32(names[i][2])
 	}
@@ -130,8 +155,11 @@ func vCrashScenario(mode int, power bool) {
 
 	if !variable {
 		// fixed-length: each slot holds the last acknowledged value, or that of a later in-flight write
-		for s := int64(0); s <= 1; s++ {
+		for s := int64(0); s <= 2; s++ {
 			slot := base + 86400*s
+			if s == 2 {
+				slot = time.Date(2021, 3, 2, 0, 0, 0, 0, time.UTC).Unix()
+			}
 			last, inflight := -1, -1
 			for i := 0; i < 3; i++ {
 				if ws[i].slot != slot {
